@@ -872,7 +872,7 @@ func TestZZVerifC12Walk(t *testing.T) {
 	env := zzC12NewEnv(t)
 	tours, nrand := 1, 600
 	if zzC12Thorough() {
-		tours, nrand = 3, 12000
+		tours, nrand = 3, 8000
 	}
 
 	if v, err := strconv.Atoi(zzGetenv("VERIF_C12_RANDOM")); err == nil {
